@@ -576,7 +576,8 @@ func TestC26EpochDataOwnFork(t *testing.T) {
 		finalAfter := map[int]int{}
 		if c.mode == "runtime" || rapid.Bool().Draw(t, "freeFinal") {
 			for i := 1; i < len(c.blocks); i++ {
-				if rapid.IntRange(0, 3).Draw(t, "fin") == 0 {
+				// 1/4 after each import, 3/4 after the last one (all forks present, announcements above the finalised block)
+				if d := rapid.IntRange(0, 3).Draw(t, "fin"); d == 0 || (i == len(c.blocks)-1 && d != 3) {
 					finalAfter[i] = rapid.IntRange(0, 13).Draw(t, "finPick")
 				}
 			}
